@@ -355,14 +355,14 @@ pub fn main(args: &util::Args) {
     let dir = util::scratch_dir("c07");
     for sub in ["C07", "C03"] {
         let Ok(rd) = std::fs::read_dir(util::verif_root().join("corpus").join(sub)) else { continue };
-        let mut files: Vec<_> = rd.filter_map(|e| e.ok().map(|e| e.path())).filter(|p| p.extension().is_some_and(|x| x == "gom")).collect();
+        let mut files: Vec<_> = rd.filter_map(|e| e.ok().map(|e| e.path())).filter(|p| p.extension().is_some_and(|x| x == "gom" || x == "hang" || x == "witness")).collect();
         files.sort();
         for f in files {
             let Ok(src) = std::fs::read_to_string(&f) else { continue };
             let name = f.file_name().unwrap().to_string_lossy().to_string();
             let id = format!("corpus:{}/{}", sub, name);
             let mut out = String::new();
-            if name.starts_with("hang-") {
+            if name.ends_with(".hang") {
                 // programs known not to terminate are only ever run in a child process
                 let p = dir.join("main.gom");
                 std::fs::write(&p, &src).unwrap();
@@ -581,12 +581,12 @@ pub fn gen_cfg(i: usize) -> crate::progen::Cfg {
         effects: true,
         wildcard_arrays: false,
         rich_generics: true,
-        vec_generics: i % 5 == 4,
-        dyn_generics: false,
+        vec_generics: i % 5 != 0,
+        dyn_generics: i % 2 == 0,
         generic_fn_values: false,
     }
 }
 
 pub fn stream_tag(cfg: &crate::progen::Cfg) -> String {
-    format!("{}{}", if cfg.vec_generics { ":vec" } else { "" }, if cfg.closure_flows { ":cf" } else { "" })
+    format!("{}", if cfg.closure_flows { ":cf" } else { "" })
 }
